@@ -1263,8 +1263,9 @@ def D9_type_string_parsing(repo, clause):
                 st = fold(i[3], s) if i[3] is not None else None
                 return base[lo:hi:st]
             return base[fold(i, s)]
-        if op == "mcall" and t[2] in ("strip", "rstrip", "lstrip", "lower", "upper", "title") and isinstance(fold(t[1], s), str):
-            return getattr(fold(t[1], s), t[2])(*[fold(a, s) for a in t[3][1:]])
+        if op == "mcall" and t[2] in ("strip", "rstrip", "lstrip", "lower", "upper", "title", "split", "rsplit", "partition", "rpartition", "replace") and isinstance(fold(t[1], s), str):
+            r_ = getattr(fold(t[1], s), t[2])(*[fold(a, s) for a in t[3][1:]])
+            return tuple(r_) if isinstance(r_, list) else r_
         if op == "call" and t[1] == "len":
             return len(fold(t[2][1], s))
         if op in ("ifexp",):
